@@ -8,8 +8,9 @@ from harness.common import *
 import vlib
 
 LEVEL_TEXT = ('Lean 4 theorems, for all shapes/offsets/data: extent queries = sets of pixel coordinates; product = pointwise product of '
-              'embeddings; merge = sum; reduce preserves the total and yields pairwise non-overlapping fields; insert adds exactly '
-              'the part of the embedding inside the target. Index arithmetic is regenerated from extent.py/field.py on every run; '
+              'embeddings; merge = sum; reduce terminates (fuel = number of fields), preserves the total and yields pairwise '
+              'non-overlapping fields; boundary = bounding box (max side never below 0); insert adds exactly '
+              'the part of the embedding inside the target; the NumPy slice pairs of product and insert are in range and of equal shape. Index arithmetic is regenerated from extent.py/field.py on every run; '
               'the NumPy array plumbing is a hand model checked against the implementation on exact Gaussian-integer data.')
 LEVEL_NOTE = ('Trusted: Lean kernel, py2lean subset semantics, NumPy slicing/broadcast semantics as modelled in Model/Field.lean, '
               'generator coverage of the correspondence. Scope: collections whose bounding box is the single origin pixel are '
